@@ -687,6 +687,15 @@ func deepCopies(h *ssa.Function) bool {
 		switch x := v.(type) {
 		case *ssa.MakeMap:
 			madeMap = true
+			nUpd := 0
+			for _, ref := range core.Refs(x) {
+				if mu, isMU := ref.(*ssa.MapUpdate); isMU && mu.Map == ssa.Value(x) {
+					nUpd++
+				}
+			}
+			if nUpd == 0 {
+				ok = false
+			}
 			// every update of the fresh map stores a recursive copy
 			for _, ref := range core.Refs(x) {
 				if mu, isMU := ref.(*ssa.MapUpdate); isMU && mu.Map == ssa.Value(x) {
@@ -698,6 +707,25 @@ func deepCopies(h *ssa.Function) bool {
 			}
 		case *ssa.MakeSlice:
 			madeSlice = true
+			nElem := 0
+			for _, ref := range core.Refs(x) {
+				// copy(out, val) fills the fresh slice with the very elements of the original: shallow
+				if cc, isCall := ref.(*ssa.Call); isCall {
+					if b, isB := cc.Call.Value.(*ssa.Builtin); isB && b.Name() == "copy" {
+						ok = false
+					}
+				}
+				if ia, isIA := ref.(*ssa.IndexAddr); isIA {
+					for _, r2 := range core.Refs(ia) {
+						if st, isSt := r2.(*ssa.Store); isSt && st.Addr == ssa.Value(ia) {
+							nElem++
+						}
+					}
+				}
+			}
+			if nElem == 0 {
+				ok = false // nothing is ever stored element by element: the elements are not copied recursively
+			}
 			for _, ref := range core.Refs(x) {
 				if ia, isIA := ref.(*ssa.IndexAddr); isIA {
 					for _, r2 := range core.Refs(ia) {
